@@ -213,7 +213,7 @@ func main() {
 		g     *gg.Gen
 		reset func()
 	}
-	coords := []float64{0, 0, 2, 0, 2, 2, 0, 2, 0, 0, 1, 1, 3, 0.5, -1, 4}
+	coords := []float64{0, 0, 2, 0, 2, 2, 0, 2, 0, 0, 1.26, 1.333, 3, 0.5, -1.07, 4.449}
 	newLocal := func(int) interface{} {
 		next, reset := gg.Cyclic(coords)
 		return &loc{&gg.Gen{K: 2, M: 2, Depth: 3, NilSlice: true, SortBound: true, Next: next}, reset}
